@@ -1,0 +1,25 @@
+//go:build verif
+
+package command
+
+import (
+	"context"
+	"time"
+
+	"github.com/v-byte-cpu/sx/command/log"
+	"github.com/v-byte-cpu/sx/pkg/scan"
+)
+
+// VerifStartScanEngine runs the unexported startScanEngine with a caller-supplied engine,
+// logger and exit delay (verification harness only; built with -tags verif).
+func VerifStartScanEngine(ctx context.Context, engine scan.EngineResulter, logger log.Logger,
+	exitDelay time.Duration) error {
+	return startScanEngine(ctx, engine, newEngineConfig(
+		withLogger(logger),
+		withScanRange(&scan.Range{}),
+		withExitDelay(exitDelay),
+	))
+}
+
+// VerifDefaultExitDelay exposes the default of --exit-delay.
+func VerifDefaultExitDelay() time.Duration { return defaultExitDelay }
